@@ -98,6 +98,12 @@ CLAIMED = {
         note='Outside: frames of more than one instruction, whole recordings and desynchronisation detection, CSimulator_exec_frame, recordings with several input blocks, the 65535 repeated-frame marker, 128K paging and contended playback, rzxinfo. '
              'Assumes memory[0] == 0xF3 (rzxplay passes 0 as previous PC to accept_interrupt) and that the instruction does not overwrite its own opcode bytes.',
         design='4 (C20)', technique=TECH + '; reference Z80 model + documented frame-boundary rules as oracle'),
+    'C12': dict(
+        text='Machine-code loader path without CLEAR: the real bin2tap.run (stack pre-fill arithmetic, _get_data_loader, _make_block) is executed for a binary of 1-8 symbolic bytes with symbolic ORG, START and STACK; the loader it emits is then '
+             'executed from 23296 by the real Simulator closures over a memory holding the real 48K ROM, the jump to LD-BYTES (0x0556) is served by the real LoadTracer.fast_load with the emitted data block, and the ROM SA/LD-RET code runs to its final RET. '
+             'z3 decides PC == START, SP == STACK and memory[ORG+i] == byte i except in the documented stack area STACK-14..STACK-1.',
+        note='Narrow: outside are the BASIC loader and the loading of the loader block itself (ROM interpreter), edge-level loading, --clear, loading screens, the 128K bank loader, PZX output, interrupts while the loader runs, and binaries/stacks overlapping 23296-23319.',
+        design='4 (C12)', technique=TECH + '; the emitted machine code is executed symbolically by the real simulator'),
     'C18': dict(
         text='skool2asm only: the real SkoolParser + AsmWriter convert a corpus of 3 skool entries (long unbreakable words, multi-instruction comment groups, registers, paragraphs, end comments, operations wider than the instruction field) with a symbolic '
              'line width 40..200 (and comment-width-min 1..40; instruction-width 5..40 enumerated). Each path stands for all widths that wrap identically: the emitted words equal the source words in order, every instruction appears once, and z3 shows '
